@@ -186,7 +186,7 @@ def register(R):
 
 ROOTS = [f'{T}:CreateMultipartUploadTask._main', f'{T}:CompleteMultipartUploadTask._main',
          f'{TC}.add_failure_cleanup', f'{TC}._run_failure_cleanups', f'{TC}._run_callbacks', f'{TC}._run_callback',
-         f'{TC}.announce_done', f'{TASK}.__call__', f'{TASK}._execute_main', 's3transfer:MultipartUploader.upload_file',
+         f'{TC}.announce_done', f'{TC}.cancel', f'{TC}.set_exception', f'{TASK}.__call__', f'{TASK}._execute_main', 's3transfer:MultipartUploader.upload_file',
          's3transfer.upload:UploadSubmissionTask._submit_multipart_request', 's3transfer.copies:CopySubmissionTask._submit_multipart_request',
          's3transfer.upload:UploadPartTask._main', 's3transfer.copies:CopyPartTask._main']
 
